@@ -284,6 +284,12 @@ def search(ctx, boost=1, focus=()):
         if k % 5 in (1, 3):
             q["layout"] = ("F", "T", "strided", "readonly")[(k // 5) % 4]
             ctx.count("layout_" + q["layout"])
+        if k % 7 == 4 and "dtype" not in q:
+            # the same scene in other units (a detector current in A, summed counts): the ranking does not depend on the unit
+            sc_ = float([1e-12, 1e-10, 1e8, 1e-14][(k // 7) % 4])
+            q["amps"] = (np.asarray(q["amps"]) * sc_).tolist()
+            q["bg"] = q["bg"] * sc_
+            ctx.count("intensity_scale_%g" % sc_)
         msgs_ = run_case("peaks", q)
         ctx.oracle_case("peaks", q, msgs_, key=classify("peaks", q, msgs_) if msgs_ else None,
                         nontrivial=(shape[0] % 2 == 1 or shape[1] % 2 == 1))
